@@ -17,6 +17,7 @@ import (
 	"github.com/formancehq/ledger/verifh/ev"
 	"github.com/formancehq/ledger/verifh/lx"
 	"github.com/formancehq/ledger/verifh/pgsim"
+	"github.com/formancehq/ledger/verifh/phttp"
 	"github.com/formancehq/ledger/verifh/reg"
 	"github.com/formancehq/ledger/verifh/world"
 )
@@ -210,7 +211,8 @@ type c11Dst struct{ Name, Mode string }
 
 func c11Setup() c11Ledgers {
 	return c11Ledgers{
-		Specs: []lx.LedgerSpec{{Name: "src"}, {Name: "dsta"}, {Name: "dstb", Bucket: "b2"}},
+		// dsth is reserved for the HTTP leg (export and import through the v2 routes)
+		Specs: []lx.LedgerSpec{{Name: "src"}, {Name: "dsta"}, {Name: "dstb", Bucket: "b2"}, {Name: "dsth"}},
 		Src:   "src",
 		Dsts:  []c11Dst{{"dsta", "same-bucket"}, {"dstb", "other-bucket"}},
 	}
@@ -219,6 +221,7 @@ func c11Setup() c11Ledgers {
 type c11Stats struct {
 	mu                                      sync.Mutex
 	histories, transitions, imports, writes int64
+	httpLegs, httpLegsWithIDHoles           int64 // export/import through the v2 routes; with holes in the log ids
 	writesNA                                int64 // write kinds the source itself refuses after that history
 	states                                  map[string]bool
 	logTypes                                map[string]int64
@@ -350,6 +353,44 @@ func runC11History(ctx context.Context, boot *pgsim.DB, L c11Ledgers, path []lx.
 			seen[m.Sig] = true
 			add("C11:snapshot:"+d.Mode+":ref:"+m.Sig, fmt.Sprintf("copy %s disagrees with the reference of the source history where the source agrees: %s", d.Name, m.What), map[string]any{"copy": d})
 		}
+	}
+	// ----- the same copy through the HTTP routes: POST /v2/src/logs/export piped into POST
+	// /v2/dsth/logs/import (the handlers carry logic of their own: stream decoding, the
+	// goroutine feeding the controller; seeded change C11b made the import handler refuse
+	// streams whose ids are not contiguous — ids burnt by rolled-back writes are holes)
+	if imported["dsta"] != nil {
+		env := phttp.NewEnv(pg)
+		ex, _ := env.Do(phttp.Req{Method: "POST", Path: "/v2/" + L.Src + "/logs/export"})
+		holes := false
+		for i, l := range logs {
+			if l.ID != nil && *l.ID != uint64(i+1) {
+				holes = true
+			}
+		}
+		switch {
+		case ex.Status != 200:
+			add("C11:http:export:status", fmt.Sprintf("POST /v2/%s/logs/export answered %d %.200s", L.Src, ex.Status, ex.Body), nil)
+		default:
+			im, _ := env.Do(phttp.Req{Method: "POST", Path: "/v2/dsth/logs/import", Headers: map[string]string{"Content-Type": "application/octet-stream"}, Body: ex.Body})
+			if im.Status != 204 {
+				add("C11:http:import:status", fmt.Sprintf("the controller-level import of these %d logs succeeded, POST /v2/dsth/logs/import of the exported body answered %d %.300s", len(logs), im.Status, im.Body), nil)
+			} else if dsth, err := w.Sys.GetLedgerController(ctx, "dsth"); err == nil {
+				if snap, err := takeSnapshot(ctx, dsth); err == nil {
+					for _, part := range snapshotParts {
+						if srcSnap.Parts[part] != snap.Parts[part] {
+							add("C11:http:snapshot:"+part, fmt.Sprintf("%s of the copy made through the HTTP routes differ from the source: %s", part, firstDiff(srcSnap.Parts[part], snap.Parts[part])), nil)
+						}
+					}
+				}
+			}
+		}
+		env.Close()
+		st.mu.Lock()
+		st.httpLegs++
+		if holes {
+			st.httpLegsWithIDHoles++
+		}
+		st.mu.Unlock()
 	}
 	st.mu.Lock()
 	st.histories++
@@ -555,6 +596,9 @@ func runC11(r *ev.Run) (ev.Coverage, []string) {
 		if st.imports == 0 {
 			r.EngineError("vacuous: no import succeeded")
 		}
+		if st.httpLegs == 0 || st.httpLegsWithIDHoles == 0 {
+			r.EngineError(fmt.Sprintf("vacuous: HTTP export/import legs run: %d, of which with holes in the log ids (ids burnt by a rolled-back write): %d", st.httpLegs, st.httpLegsWithIDHoles))
+		}
 		if st.writeOK[pathSingle+"/post"] == 0 {
 			r.EngineError("vacuous: no post-import write succeeded through the single path")
 		}
@@ -580,13 +624,15 @@ func runC11(r *ev.Run) (ev.Coverage, []string) {
 		"depth_completed":                  depthDone,
 		"histories_enumerated":             len(seqs),
 		"imports_succeeded":                st.imports,
+		"http_export_import_legs":          st.httpLegs,
+		"http_legs_with_holes_in_log_ids":  st.httpLegsWithIDHoles,
 		"post_import_writes_checked":       st.writes,
 		"post_import_writes_inapplicable":  st.writesNA,
 		"post_import_success_by_path_kind": st.writeOK,
 		"exported_logs_by_type":            st.logTypes,
 		"soft_differences":                 soft,
 		"exhaustive":                       done && complete,
-		"rule":                             "every sequence of length<=depth over the source alphabet (postings incl. 2^64+1, multi-posting, back-dated, adversarial strings in metadata/reference/idempotency key/account metadata; script with set_account_meta/set_tx_meta; reverts; tx/account metadata set and delete; schema insertion and a write under that schema; dry run) on ledger src; real Export -> real Import into a fresh ledger of the same bucket and into one of another bucket; oracle 1: transactions (ids, postings, timestamps, references, metadata, revertedAt, post-commit and effective volumes), accounts (metadata, first usage, volumes), volumes, aggregated balances, logs (ids, types, dates, payloads, idempotency keys, schema versions) and hashes read through the API are equal on source and copy, and the copy agrees with the lx.Ref of the source history wherever the source does; oracle 2: on a clone of the imported database, for each path {single call, non-atomic bulk of 1 and 2, atomic bulk of 1 and 2} x each write kind that the source accepts: the write succeeds, log/transaction ids continue at max imported id + 1, and _system.ledgers.state is in-use",
+		"rule":                             "every sequence of length<=depth over the source alphabet (postings incl. 2^64+1, multi-posting, back-dated, adversarial strings in metadata/reference/idempotency key/account metadata; script with set_account_meta/set_tx_meta; reverts; tx/account metadata set and delete; schema insertion and a write under that schema; dry run) on ledger src; real Export -> real Import into a fresh ledger of the same bucket and into one of another bucket, and once more through the HTTP routes (POST /v2/src/logs/export piped into POST /v2/dsth/logs/import, including histories whose log ids have holes); oracle 1: transactions (ids, postings, timestamps, references, metadata, revertedAt, post-commit and effective volumes), accounts (metadata, first usage, volumes), volumes, aggregated balances, logs (ids, types, dates, payloads, idempotency keys, schema versions) and hashes read through the API are equal on source and copy, and the copy agrees with the lx.Ref of the source history wherever the source does; oracle 2: on a clone of the imported database, for each path {single call, non-atomic bulk of 1 and 2, atomic bulk of 1 and 2} x each write kind that the source accepts: the write succeeds, log/transaction ids continue at max imported id + 1, and _system.ledgers.state is in-use",
 	}
 	return cov, assumptions
 }
